@@ -28,7 +28,8 @@ LEVEL_TEXT = ('Theorems (Props/C08.v): read(write(f)) presents exactly the conte
               'ONE3D FAMILY (one3d / humidity / vertical_diffusivity; Model/One3d.v, Proofs/One3dProofs.v; Memmap reader model with the translated record_items and time_steps expressions, reshapes / first-stamp-change / memmap size rules hand-modelled): C08_one3d_read_write, C08_one3d_rewrite_idempotent, C08_one3d_time_flags; tie H: constructor OD8 '
               '(ncf2one3d output == o_enc, byte-identical re-write). '
               'TEMPERATURE and HEIGHT/PRESSURE (Model/TempHp.v, Proofs/TempHpProofs.v; layered record files over the One3d codec; both Memmap readers hand-modelled incl. the for-loop fall-through, the lazy reshapes and the marker check): C08_temperature_read_write, C08_temperature_rewrite_idempotent, C08_heightpres_read_write, '
-              'C08_heightpres_rewrite_idempotent; tie H: constructors TD8 / HD8 (writer output == spec encoding, byte-identical re-write).')
+              'C08_heightpres_rewrite_idempotent; tie H: constructors TD8 / HD8 (writer output == spec encoding, byte-identical re-write). '
+              'WIND (Model/Wind.v, Proofs/WindProofs.v; Memmap reader hand-modelled incl. the RecordFile walk of its __init__, with a three-valued result read / raise / never returns): C08_wind_read_write_partial, C08_wind_rewrite_idempotent; tie H: constructor WD8.')
 LEVEL_NOTE = ('Trusted: Coq kernel+vm_compute, py2coq, harness. Met formats and landuse are held by correspondence and generic record '
               'framing theorems only. Known findings: single-step met files; 1x1 wind grids; land-use sniffing.')
 TECHNIQUE = 'Coq proof (codec/reader round trip, date arithmetic over translated expressions) + differential correspondence'
@@ -57,6 +58,17 @@ def gen(rng, n, tier):
         c = M.gen_lb_thin(rng, tier)
         out.append(dict(kind='lbdy-thin', content=c, write=True, reread=True))
     # cloud/rain files, 3-field (< 4.3) and 5-field layouts
+    # wind files with many steps on tiny grids: the Memmap reader's step count runs ahead of the file (region 19)
+    for i in range(max(2, n // 60)):
+        c = M.gen_met(rng, fmt='wind', tier=tier, rollover=0.0, min_steps=3)
+        c['nx'], c['ny'], c['nz'] = rng.choice([(2, 1, 1), (1, 2, 1), (3, 1, 1), (2, 1, 2)])
+        base = c['steps'][0]
+        c['steps'] = []
+        for t in range(rng.randint(4, 9)):
+            d, h = L.yyjjj_add_hours(base['date'], base['hhmm'] // 100, t)
+            c['steps'].append(dict(date=d, hhmm=h * 100,
+                                   fields={v: [[L.finite_word(rng) for _ in range(c['nx'] * c['ny'])] for _ in range(c['nz'])] for v in ('U', 'V')}))
+        out.append(dict(kind='met-wind-long', content=c, write=True, reread=True))
     for i in range(max(2, n // 12)):
         c = M.gen_cloud_rain(rng, tier)
         out.append(dict(kind='met-cloud_rain', content=c, write=True, reread=True))
